@@ -636,6 +636,31 @@ impl<'a> Hist<'a> {
                     if h.pair.0 == h.pair.1 {
                         self.violate("C05/local-path-refused", "src == dst must yield the local path".into())?;
                     }
+                    // C06 (b'): ... nor while the latest lookup of the pair's live worker delivered a valid path which the
+                    // policy accepts (what the manager keeps of a result is its own business, but it may not keep
+                    // only paths it then refuses to hand out)
+                    if h.t_ns == self.sim.now_ns() && !self.fetch.lock().unwrap().outstanding_for(h.pair) {
+                        if let Some(wk) = self.live_worker(h.pair) {
+                            let thr = self.cfg.min_expiry_threshold.as_secs() as u32;
+                            let latest: Option<(usize, Vec<String>, u64)> = {
+                                let st = self.fetch.lock().unwrap();
+                                st.reqs.iter().rev().find(|r| r.actor == Some(wk) && r.done_step.is_some()).map(|r| {
+                                    let names = match &r.outcome {
+                                        Some(Outcome::Ok(v)) => v.iter().filter(|p| self.policies.accepts(p) && p.expiration().unwrap_or(0) > t_secs + thr).map(|p| self.route_name(p)).collect(),
+                                        _ => Vec::new(),
+                                    };
+                                    (r.id, names, r.done_step.unwrap_or(0))
+                                })
+                            };
+                            let pr = self.probes.lock().unwrap().get(&pair_key(h.pair)).cloned();
+                            if let (Some((id, names, dstep)), Some((_, pstep, pactor))) = (latest, pr) {
+                                // the worker finished processing that result (published its state afterwards) before answering
+                                if !names.is_empty() && pactor == Some(wk) && pstep > dstep && pstep < h.step {
+                                    self.violate("C06/left-without-path", format!("{} returned no path although lookup #{id}, the latest one, delivered valid paths {names:?} and no lookup is outstanding [valid paths of the latest lookup were not kept]", h.kind))?;
+                                }
+                            }
+                        }
+                    }
                     // C06 (b): a sender is not left without a path while the worker holds a valid one
                     if h.t_ns == self.sim.now_ns() && !self.fetch.lock().unwrap().outstanding_for(h.pair) && self.live_worker(h.pair).is_some() {
                         let thr = self.cfg.min_expiry_threshold.as_secs() as u32;
